@@ -42,6 +42,7 @@ func (c *cachedCryptoKey) Close() {
 	}
 
 	log.Debugf("closing cached key: %s, refs=%d", c.CryptoKey, c.refs.Load())
+	verifHook("cck.destroy", c)
 	c.CryptoKey.Close()
 }
 
@@ -201,6 +202,7 @@ func newKeyCache(t cacheKeyType, policy *CryptoPolicy) (c *keyCache) {
 
 	onEvict := func(key string, value cacheEntry) {
 		log.Debugf("[onEvict] closing key -- id: %s\n", key)
+		verifHook("kc.evict.locked", value.key)
 
 		value.key.Close()
 	}
@@ -244,9 +246,11 @@ func isReloadRequired(entry cacheEntry, checkInterval time.Duration) bool {
 // is not present in the cache it will retrieve the key using the provided loader
 // and store the key if an error is not returned.
 func (c *keyCache) GetOrLoad(id KeyMeta, loader func(KeyMeta) (*internal.CryptoKey, error)) (*cachedCryptoKey, error) {
+	verifHook("kc.getorload.enter", nil)
 	c.rw.RLock()
 	k, ok := c.getFresh(id)
 	c.rw.RUnlock()
+	verifHook("kc.getorload.after_runlock", nil)
 
 	if ok {
 		return tracked(k), nil
@@ -382,6 +386,7 @@ func (c *keyCache) write(meta KeyMeta, e cacheEntry) {
 // In the event that the cached or loaded key is invalid (see [keyCache.IsInvalid]),
 // the key will be reloaded and the cache updated.
 func (c *keyCache) GetOrLoadLatest(id string, loader func(KeyMeta) (*internal.CryptoKey, error)) (*cachedCryptoKey, error) {
+	verifHook("kc.getorloadlatest.enter", nil)
 	c.rw.Lock()
 	defer c.rw.Unlock()
 
